@@ -267,9 +267,14 @@ class HillClimbAllocator:
             # Pick any affecting live range.
             ix1 = turn_list[random.randint(0, len(turn_list) - 1)]
 
-        ix2 = turn_list[random.randint(0, len(turn_list) - 2)]
-        if ix1 == ix2:
-            ix2 = turn_list[-1]
+        if len(turn_list) > 1:
+            ix2 = turn_list[random.randint(0, len(turn_list) - 2)]
+            if ix1 == ix2:
+                ix2 = turn_list[-1]
+        else:
+            # Only one affecting live range is known (the previous allocation attempt was abandoned before all
+            # live ranges had been given a turn); swap with any turn
+            ix2 = random.randint(0, len(indices) - 1)
         # Swap indices
         indices[ix1], indices[ix2] = indices[ix2], indices[ix1]
         if iterations_stuck > HillClimbAllocator.MAX_ITERATIONS_STUCK:
